@@ -34,10 +34,11 @@ PROPS["C18"] = {
                     "porcupine and the brute-force checker are not wrong in the same way",
                     "the library's sequential results are the reference for the concurrent ones (their correctness is C01-C17)"],
     "units": [{
+        # "race-noavx2": the race binary with GODEBUG=cpu.avx2=off (serial point code: its scratch state differs from the vector path).
         # "race"/"race-purego": built with -race (the race detector is an oracle); "default": the same tests without
         # instrumentation (~10x more repetitions per case at real-world timing; oracles: results, histories, invariants,
         # runtime fatal errors).
-        "pkg": "primitives/ed25519/extra/cache", "configs": {"quick": ["race", "default"], "thorough": ["race", "race-purego", "default"]},
+        "pkg": "primitives/ed25519/extra/cache", "configs": {"quick": ["race", "race-noavx2", "default"], "thorough": ["race", "race-noavx2", "race-purego", "default", "noavx2"]},
         "tests": {
             "TestC18ModelSelf": LIST(configs=["race"]),
             "TestC18History": T(400, 8000, shards={"quick": 8, "thorough": 16}, shrinktime="15s"),
